@@ -29,6 +29,10 @@ type Engine struct {
 	smtFuncs  map[string]string
 	smtConsts map[string]string
 	ghost     map[string]string // ghost heap components: name -> sort
+	preds     map[string]*SpecFunc
+	globalInv []*Clause
+	trusted   []TrustedOb
+	trustedHit map[string]int
 	specFiles []*SpecFile
 	contracts map[string]*Contract
 	fns       map[string]*ssa.Function // by key
@@ -289,6 +293,9 @@ func (e *Engine) writeSet(fn *ssa.Function) map[string]bool {
 }
 
 func (e *Engine) compSort(comp string) string {
+	if s, ok := e.ghost[comp]; ok {
+		return s
+	}
 	return e.compSorts[comp]
 }
 
@@ -348,8 +355,7 @@ func (e *Engine) initOpaque(tr *Trans, named *types.Named, ref string) {
 	switch e.sorts.typeName(named) {
 	case "maphash.Hash":
 		if srt, ok := e.ghost["HashStream"]; ok {
-			hv := tr.heapVar("HashStream", srt)
-			tr.cur.assign(hv, fmt.Sprintf("(store %s %s hs_empty)", cur(hv), ref))
+			tr.upd("HashStream", srt, ref, "hs_empty")
 		}
 	}
 }
@@ -387,6 +393,8 @@ func (e *Engine) loadSpecs() error {
 	e.smtFuncs = map[string]string{}
 	e.smtConsts = map[string]string{}
 	e.ghost = map[string]string{}
+	e.preds = map[string]*SpecFunc{}
+	e.trustedHit = map[string]int{}
 	e.contracts = map[string]*Contract{}
 	files, _ := filepath.Glob(filepath.Join(e.verifDir, "spec", "*.gspec"))
 	sort.Strings(files)
@@ -428,6 +436,11 @@ func (e *Engine) addSpecFile(sf *SpecFile) {
 	for _, f := range sf.Funcs {
 		e.specFuncs[f.Name] = f
 	}
+	for _, p := range sf.Preds {
+		e.preds[p.Name] = p
+	}
+	e.globalInv = append(e.globalInv, sf.GlobalInv...)
+	e.trusted = append(e.trusted, sf.Trusted...)
 	for _, raw := range sf.Smt {
 		e.scanSmtDecl(raw)
 	}
@@ -577,6 +590,20 @@ func (e *Engine) specPrelude() string {
 			sb.WriteString(raw + "\n")
 		}
 	}
+	// addresses of package-level variables: distinct non-nil references
+	var gnames []string
+	for _, m := range e.pkg.Members {
+		if g, ok := m.(*ssa.Global); ok {
+			gnames = append(gnames, "gaddr_G_"+sanitize(g.Pkg.Pkg.Name()+"."+g.Name()))
+		}
+	}
+	sort.Strings(gnames)
+	for _, g := range gnames {
+		sb.WriteString(fmt.Sprintf("(declare-const %s Int)\n(assert (> %s 0))\n", g, g))
+	}
+	if len(gnames) > 1 {
+		sb.WriteString("(assert (distinct " + strings.Join(gnames, " ") + "))\n")
+	}
 	for _, sf := range e.specFiles {
 		for _, f := range sf.Funcs {
 			var ps, pd []string
@@ -724,3 +751,183 @@ func minPos(l *ILLoop) int {
 	return m
 }
 
+
+// goTypeOf resolves a type expression used in specifications (*Schema, []string, map[string]bool, int ...).
+func (e *Engine) goTypeOf(name string) types.Type {
+	switch {
+	case strings.HasPrefix(name, "*"):
+		if t := e.goTypeOf(name[1:]); t != nil {
+			return types.NewPointer(t)
+		}
+		return nil
+	case strings.HasPrefix(name, "[]"):
+		if t := e.goTypeOf(name[2:]); t != nil {
+			return types.NewSlice(t)
+		}
+		return nil
+	case strings.HasPrefix(name, "map["):
+		depth := 0
+		for i := 3; i < len(name); i++ {
+			if name[i] == '[' {
+				depth++
+			} else if name[i] == ']' {
+				depth--
+				if depth == 0 {
+					k, v := e.goTypeOf(name[4:i]), e.goTypeOf(name[i+1:])
+					if k != nil && v != nil {
+						return types.NewMap(k, v)
+					}
+					return nil
+				}
+			}
+		}
+		return nil
+	}
+	if i := strings.LastIndex(name, "."); i > 0 {
+		pn, tn := name[:i], name[i+1:]
+		for _, imp := range e.tpkg.Types.Imports() {
+			if imp.Name() == pn || imp.Path() == pn {
+				if obj := imp.Scope().Lookup(tn); obj != nil {
+					if t, ok := obj.(*types.TypeName); ok {
+						return t.Type()
+					}
+				}
+			}
+		}
+		return nil
+	}
+	if name == "any" {
+		return types.Universe.Lookup("any").Type()
+	}
+	if obj := e.tpkg.Types.Scope().Lookup(name); obj != nil {
+		if tn, ok := obj.(*types.TypeName); ok {
+			return tn.Type()
+		}
+	}
+	if obj := types.Universe.Lookup(name); obj != nil {
+		if tn, ok := obj.(*types.TypeName); ok {
+			return tn.Type()
+		}
+	}
+	return nil
+}
+
+// isTrusted reports whether an obligation is on the explicit trusted list (assumed, reported, never counted as proved).
+func (e *Engine) isTrusted(name string) (string, bool) {
+	for _, t := range e.trusted {
+		if globMatch(t.Glob, name) {
+			e.trustedHit[t.Glob+" :: "+t.Reason]++
+			return t.Reason, true
+		}
+	}
+	return "", false
+}
+
+// globalVar resolves a package-level variable of the target package.
+func (e *Engine) globalVar(name string) *ssa.Global {
+	if m, ok := e.pkg.Members[name]; ok {
+		if g, ok := m.(*ssa.Global); ok {
+			return g
+		}
+	}
+	return nil
+}
+
+// anyAxioms: reflect.ValueOf facts for every dynamic type that is boxed into an interface in the package.
+func (e *Engine) anyAxioms() string {
+	var sb strings.Builder
+	kindOf := func(t types.Type) int {
+		switch u := t.Underlying().(type) {
+		case *types.Basic:
+			switch u.Kind() {
+			case types.Bool:
+				return 1
+			case types.Int:
+				return 2
+			case types.Int8:
+				return 3
+			case types.Int16:
+				return 4
+			case types.Int32:
+				return 5
+			case types.Int64:
+				return 6
+			case types.Uint:
+				return 7
+			case types.Uint8:
+				return 8
+			case types.Uint16:
+				return 9
+			case types.Uint32:
+				return 10
+			case types.Uint64:
+				return 11
+			case types.Uintptr:
+				return 12
+			case types.Float32:
+				return 13
+			case types.Float64:
+				return 14
+			case types.Complex64:
+				return 15
+			case types.Complex128:
+				return 16
+			case types.String:
+				return 24
+			case types.UnsafePointer:
+				return 26
+			}
+		case *types.Array:
+			return 17
+		case *types.Chan:
+			return 18
+		case *types.Signature:
+			return 19
+		case *types.Map:
+			return 21
+		case *types.Pointer:
+			return 22
+		case *types.Slice:
+			return 23
+		case *types.Struct:
+			return 25
+		case *types.Interface:
+			return 20
+		}
+		return -1
+	}
+	if _, ok := e.specFuncs["rvof"]; !ok {
+		return ""
+	}
+	for _, c := range e.sorts.anyList {
+		k := kindOf(c.T)
+		if k < 0 || c.Sort == "Any" || c.Sort == "RT" {
+			continue
+		}
+		sb.WriteString(fmt.Sprintf("(assert (forall ((x %s)) (! (= (kind (rvof (%s x))) %d) :pattern ((rvof (%s x))))))\n", c.Sort, c.Name, k, c.Name))
+		switch k {
+		case 24:
+			sb.WriteString(fmt.Sprintf("(assert (forall ((x %s)) (! (= (rvstr (rvof (%s x))) x) :pattern ((rvof (%s x))))))\n", c.Sort, c.Name, c.Name))
+			if e.sorts.typeName(c.T) == "string" {
+				sb.WriteString(fmt.Sprintf("(assert (forall ((x String)) (! (and (= (rvof (%s x)) (rvofstr x)) (= (rtype (rvof (%s x))) T_string)) :pattern ((rvof (%s x))))))\n", c.Name, c.Name, c.Name))
+			}
+		case 22:
+			if pt, ok := c.T.Underlying().(*types.Pointer); ok {
+				ek := kindOf(pt.Elem())
+				if ek < 0 {
+					ek = 0
+				}
+				kfact := fmt.Sprintf("(= (kind (rvelem (rvof (%s x)))) %d)", c.Name, ek)
+				if ek == 0 {
+					kfact = "true"
+				}
+				sb.WriteString(fmt.Sprintf("(assert (forall ((x Int)) (! (and (= (rvisnil (rvof (%s x))) (= x 0)) (=> (not (= x 0)) (and %s (rvsettable (rvelem (rvof (%s x))))))) :pattern ((rvof (%s x))))))\n", c.Name, kfact, c.Name, c.Name))
+			}
+		case 21:
+			sb.WriteString(fmt.Sprintf("(assert (forall ((x Int)) (! (= (rvisnil (rvof (%s x))) (= x 0)) :pattern ((rvof (%s x))))))\n", c.Name, c.Name))
+		case 23:
+			sb.WriteString(fmt.Sprintf("(assert (forall ((x Slice)) (! (=> (and (>= (s_len x) 0) (=> (= (s_arr x) 0) (= (s_len x) 0))) (and (= (rvisnil (rvof (%s x))) (= (s_arr x) 0)) (= (rvlen (rvof (%s x))) (s_len x)))) :pattern ((rvof (%s x))))))\n", c.Name, c.Name, c.Name))
+		}
+	}
+	return sb.String()
+}
